@@ -556,3 +556,18 @@ def explore(run, hyps=(), max_paths=200, decide_timeout_ms=3000):
         if len(paths) > max_paths:
             raise Unsupported('path explosion (> %d paths)' % max_paths)
     return paths
+
+
+class with_ctx:
+    """re-enter the context of an explored path (to evaluate closures captured during the run)"""
+    def __init__(self, c):
+        self.c = c
+
+    def __enter__(self):
+        self.prev = Ctx.current
+        Ctx.current = self.c
+        return self.c
+
+    def __exit__(self, *a):
+        Ctx.current = self.prev
+        return False
